@@ -180,7 +180,12 @@ impl DocumentBlock {
             DocumentBlock::OrderedList(list) => {
                 let item = list.items.last_mut().unwrap();
 
-                if item.is_empty() {
+                // text of a tight item that follows a heading, code block, ... is a paragraph of
+                // its own, not a continuation of that block
+                if !matches!(
+                    item.last(),
+                    Some(DocumentBlock::Para(_)) | Some(DocumentBlock::Plain(_))
+                ) {
                     item.push(DocumentBlock::Para(Para {
                         line_range: line_range.clone(),
                         inlines: Vec::new(),
@@ -192,7 +197,12 @@ impl DocumentBlock {
             DocumentBlock::BulletList(list) => {
                 let item = list.items.last_mut().unwrap();
 
-                if item.is_empty() {
+                // text of a tight item that follows a heading, code block, ... is a paragraph of
+                // its own, not a continuation of that block
+                if !matches!(
+                    item.last(),
+                    Some(DocumentBlock::Para(_)) | Some(DocumentBlock::Plain(_))
+                ) {
                     item.push(DocumentBlock::Para(Para {
                         line_range: line_range.clone(),
                         inlines: Vec::new(),
